@@ -104,7 +104,7 @@ Proof.
   destruct geometry_ok as (HBM & Hnw).
   pose proof (slurp_spec B M HBM Hnw (pslurp p) (tag_limit (ftag fr)) (ftotal fr) (fscript fr) Hinv) as Hs.
   destruct (slurp (pslurp p) (tag_limit (ftag fr)) (ftotal fr) (fscript fr)) as [[o s'] r'].
-  destruct Hs as ((Hg' & Hmx & Hal & Hpost) & Hfuel).
+  destruct Hs as (((Hg' & Hmx & Hal & Hpost) & _) & Hfuel).
   cbn [reset maxSize rtotal rscript] in Hmx, Hal, Hpost.
   destruct o; try (intros H; inversion H; subst; clear H; split; [exact Hg'|];
                    split; [left; reflexivity|]; split; [intros len Hl; discriminate|];
